@@ -14,7 +14,8 @@ GOOD = {
 }
 GOOD["same_pair_rgb_notation"] = ".n {\n  color: rgb(119, 119, 119);\n  background-color: white;\n}\n"
 GOOD_ORDER = list(GOOD)
-FAULTS = ["non_utf8", "directory", "dangling_link", "unserialisable", "empty", "stale_output"]
+FAULTS = ["non_utf8", "directory", "dangling_link", "unserialisable", "empty", "stale_output", "fails_late_defines_t"]
+LATE = ":root {\n  --t: #222;\n}\n.v {\n  color: var(--t);\n}\n.u {\n  *zoom: 1;\n  color: #777;\n}\n"   # fails after its :root was indexed
 FAULT_POS = ["0.css", "b.css", "n.css", "sub/y.css"]
 GOOD_POS = ["a.css", "m_cmyk.css", "sub/z_cm_v2.css"]   # '_cm' inside a stem does not make a file an output
 STALE = ("stale_cm.css", ".old {\n  color: #777;\n}\n")   # an output of some earlier run: never an input, never touched
@@ -34,6 +35,8 @@ def make_fault(w, rel, kind):
         open(p, "w").write(".u {\n  *zoom: 1;\n  color: #777;\n}\n")
     elif kind == "empty":
         open(p, "w").close()
+    elif kind == "fails_late_defines_t":
+        open(p, "w").write(LATE)
     elif kind == "stale_output":
         q = os.path.join(os.path.dirname(p), STALE[0])
         open(q, "w").write(STALE[1])
@@ -128,6 +131,8 @@ def judge_tree(goods, faults, settings=SETTINGS, perm=None):
             expected[rel[:-4] + "_cm.css"] = solo_output("", rel, settings)
         elif kind == "unserialisable":
             expected[rel[:-4] + "_cm.css"] = solo_output(".u {\n  *zoom: 1;\n  color: #777;\n}\n", rel, settings)
+        elif kind == "fails_late_defines_t":
+            expected[rel[:-4] + "_cm.css"] = solo_output(LATE, rel, settings)
         else:
             expected[rel[:-4] + "_cm.css"] = None
     status, obs = forked(_batch_here, goods, faults, settings, perm)
@@ -161,7 +166,7 @@ def judge_tree(goods, faults, settings=SETTINGS, perm=None):
             v("batch/unexpected_file", "the run created %s" % sorted(extra))
         # bad files reported
         for rel, kind in faults:
-            if kind in ("non_utf8", "directory", "dangling_link", "unserialisable"):
+            if kind in ("non_utf8", "directory", "dangling_link", "unserialisable", "fails_late_defines_t"):
                 if not any(l.startswith("Error processing") and rel in l for l in res1["stderr"].splitlines()):
                     v("batch/bad_file_not_reported", "no 'Error processing' line for %s (%s)" % (rel, kind))
         # repeating the run reproduces the same tree
